@@ -136,45 +136,45 @@ theorem evaluateT_is_evaluate (lk : Bytes → Lookup) (isReg : Bytes → Bool) (
 
 /-! ### non-vacuity and the historic witnesses -/
 
-def x : Arg := .ident [120]
-def tblX (v : Int) : Bytes → Lookup := fun s => if s = [120] then .found v else .notFound
-def tblDefer : Bytes → Lookup := fun s => if s = [120] then .deferred else .notFound
+def exX : Arg := .ident [120]
+def exTblX (v : Int) : Bytes → Lookup := fun s => if s = [120] then .found v else .notFound
+def exTblDefer : Bytes → Lookup := fun s => if s = [120] then .deferred else .notFound
 
 /-- `eval_commutes` is exercised: `(x + 2) - (x - 3)` deferred, then `x = 10`, against direct evaluation -/
 example :
-    evaluate tblDefer (fun _ => false) (.bin .sub (.bin .add x (.const 2)) (.bin .sub x (.const 3)))
-      = .ok (⟨true, some [120]⟩, .bin .sub (.bin .add x (.const 5)) x) ∧
-    evaluate (tblX 10) (fun _ => false) (.bin .sub (.bin .add x (.const 5)) x) = .ok (⟨true, none⟩, .const 5) ∧
-    evaluate (tblX 10) (fun _ => false) (.bin .sub (.bin .add x (.const 2)) (.bin .sub x (.const 3)))
+    evaluate exTblDefer (fun _ => false) (.bin .sub (.bin .add exX (.const 2)) (.bin .sub exX (.const 3)))
+      = .ok (⟨true, some [120]⟩, .bin .sub (.bin .add exX (.const 5)) exX) ∧
+    evaluate (exTblX 10) (fun _ => false) (.bin .sub (.bin .add exX (.const 5)) exX) = .ok (⟨true, none⟩, .const 5) ∧
+    evaluate (exTblX 10) (fun _ => false) (.bin .sub (.bin .add exX (.const 2)) (.bin .sub exX (.const 3)))
       = .ok (⟨true, none⟩, .const 5) := ⟨rfl, rfl, rfl⟩
 
 /-- `retry_commutes` is exercised: `(2 + 3) * y + x` with only `y` known stops at `x` with `5 * y ↦ 20` done -/
 example :
     evaluateT (fun s => if s = [121] then .found 4 else .notFound) (fun _ => false)
-      (.bin .add (.bin .mul (.bin .add (.const 2) (.const 3)) (.ident [121])) x)
-      = .nosuch [120] (.bin .add (.const 20) x) := rfl
+      (.bin .add (.bin .mul (.bin .add (.const 2) (.const 3)) (.ident [121])) exX)
+      = .nosuch [120] (.bin .add (.const 20) exX) := rfl
 
 /-- F16 (repaired): `x % 1` is no longer rewritten to `x`; both orders give 0 for `x = 7` -/
 example :
-    simplify (.bin .mod x (.const 1)) = .ok (false, .bin .mod x (.const 1)) ∧
-    evaluate (tblX 7) (fun _ => false) (.bin .mod x (.const 1)) = .ok (⟨true, none⟩, .const 0) := ⟨rfl, rfl⟩
+    simplify (.bin .mod exX (.const 1)) = .ok (false, .bin .mod exX (.const 1)) ∧
+    evaluate (exTblX 7) (fun _ => false) (.bin .mod exX (.const 1)) = .ok (⟨true, none⟩, .const 0) := ⟨rfl, rfl⟩
 
 /-- F17 (repaired): `(x % -5) % 3` is not collapsed (|−5| > |3|), `(x % 10) % 11` still is -/
 example :
-    simplify (.bin .mod (.bin .mod x (.const (-5))) (.const 3))
-      = .ok (false, .bin .mod (.bin .mod x (.const (-5))) (.const 3)) ∧
-    simplify (.bin .mod (.bin .mod x (.const 10)) (.const 11)) = .ok (true, .bin .mod x (.const 10)) ∧
-    evaluate (tblX 4) (fun _ => false) (.bin .mod (.bin .mod x (.const (-5))) (.const 3))
+    simplify (.bin .mod (.bin .mod exX (.const (-5))) (.const 3))
+      = .ok (false, .bin .mod (.bin .mod exX (.const (-5))) (.const 3)) ∧
+    simplify (.bin .mod (.bin .mod exX (.const 10)) (.const 11)) = .ok (true, .bin .mod exX (.const 10)) ∧
+    evaluate (exTblX 4) (fun _ => false) (.bin .mod (.bin .mod exX (.const (-5))) (.const 3))
       = .ok (⟨true, none⟩, .const 1) := ⟨rfl, rfl, rfl⟩
 
 /-- F15 (repaired): the bitwise merge arms exist -/
 example :
-    simplify (.bin .bor (.bin .bor x (.const 3)) (.const 4)) = .ok (true, .bin .bor x (.const 7)) ∧
-    simplify (.bin .bxor (.bin .bxor x (.const 3)) (.const 5)) = .ok (true, .bin .bxor x (.const 6)) := ⟨rfl, rfl⟩
+    simplify (.bin .bor (.bin .bor exX (.const 3)) (.const 4)) = .ok (true, .bin .bor exX (.const 7)) ∧
+    simplify (.bin .bxor (.bin .bxor exX (.const 3)) (.const 5)) = .ok (true, .bin .bxor exX (.const 6)) := ⟨rfl, rfl⟩
 
 /-- the division spine: `(x / 3) / -2 ↦ x / -6`, `(100 / x) / 7 ↦ 14 / x` -/
 example :
-    simplify (.bin .div (.bin .div x (.const 3)) (.const (-2))) = .ok (true, .bin .div x (.const (-6))) ∧
-    simplify (.bin .div (.bin .div (.const 100) x) (.const 7)) = .ok (true, .bin .div (.const 14) x) := ⟨rfl, rfl⟩
+    simplify (.bin .div (.bin .div exX (.const 3)) (.const (-2))) = .ok (true, .bin .div exX (.const (-6))) ∧
+    simplify (.bin .div (.bin .div (.const 100) exX) (.const 7)) = .ok (true, .bin .div (.const 14) exX) := ⟨rfl, rfl⟩
 
 end Trion.Simp
